@@ -5,6 +5,8 @@ import H4.Driver.Conv
 import H4.Driver.HPIO
 import H4.Driver.Atom
 import H4.Driver.Chunk
+import H4.Driver.VGroup
+import H4.Driver.Annot
 open H4.Driver
 
 /-- state of every stateful engine; reset at each `CASE` line -/
@@ -13,6 +15,8 @@ structure World where
   hp : H4.HPIO.HP := H4.HPIO.opened []
   atom : H4.Atom.State := H4.Atom.State.init
   chunk : ChunkSt := {}
+  vg : H4.VGroup.File := {}
+  an : H4.Annot.AnState := {}
 
 def stepWorld (w : World) (engine : String) (args : List String) : World × String :=
   match engine with
@@ -21,6 +25,8 @@ def stepWorld (w : World) (engine : String) (args : List String) : World × Stri
   | "conv" => (w, stepConv args)
   | "atom" => let (a, out) := stepAtom w.atom args; ({ w with atom := a }, out)
   | "chunk" => let r := stepChunk w.chunk args; ({ w with chunk := r.1 }, r.2)
+  | "an" => let (v, o) := stepAn w.an args; ({ w with an := v }, o)
+  | "vg" => let (v, o) := stepVg w.vg args; ({ w with vg := v }, o)
   | "hp" => let (h, r) := stepHp w.hp args; ({ w with hp := h }, r)
   | _ => (w, "bad-engine")
 
